@@ -159,6 +159,12 @@ def body(ctx):
                                   ops=[dict(api='push', size=n, src=src, path='/sdcard/f%d' % k, st_mode=rng.choice([33272, 0o100644, 0xFFFFFFFF]),
                                             mtime=rng.choice([0, 1, 0xFFFFFFFF]), cb=cb)]))
                 labels.append('source=%s cb=%s' % (src, cb))
+                if src == 'bytesio' and n:
+                    # the same stream after the caller has read a header from it / handing out short reads: what is sent is what is left, with or without a callback
+                    k += 1
+                    specs.append(dict(seed=ctx.seed + 100 + k, maxdata=65536, rid='random', frag='whole',
+                                      ops=[dict(api='push', size=n, src=src, path='/sdcard/g%d' % k, mtime=5, cb=cb, src_offset=(3, 4096)[k % 2], src_short=(None, 1000)[(k // 2) % 2])]))
+                    labels.append('source=pre-read %s cb=%s' % (src, cb))
     for cwd in ('inside', 'elsewhere'):
         for files in ([('a.txt', 10)], [('a.txt', 0), ('b.bin', 5000), ('c', 70000)], []):
             k += 1
